@@ -151,7 +151,10 @@ def main():
             'replay_cmd_template': '/venv/bin/python run_check.py %s --replay {path}' % pid,
             'engine': engine,
             'level_claimed': {'category': 'model_checking', 'text': text, 'design_ref': ref},
-            'level_note': note,
+            'level_note': note + ' | the exact, current input families (incl. the element-type, layout, self-connection, large-size and '
+                                 'other dimensions added during the mutant waves, DESIGN.md 8.7-8.18) are the RULE string of '
+                                 'checks/%s.py, copied into the evidence file as bounds; families that are not exhaustive over '
+                                 'generator answers are named as such there' % pid.lower(),
             'technique': technique,
         })
     man = {
